@@ -119,9 +119,9 @@ func (e ecfg) tag() string {
 
 type c16 struct {
 	tier string
-	o *vcoq.Out
-	r *vcoq.Rand
-	g *pairGen
+	o    *vcoq.Out
+	r    *vcoq.Rand
+	g    *pairGen
 }
 
 type b4 [4]bool
@@ -180,6 +180,11 @@ func (g *c16) direct(what, class string, js any) {
 // pair evaluates every configuration of cfgs (and the And/Or combinations combs) on (x, y) and emits
 // one case.
 func (g *c16) pair(x, y proto.Message, cfgs []ecfg, combs [][]ecfg, tags []string, nontrivial bool) {
+	g.pairT(x, y, cfgs, combs, nil, tags, nontrivial)
+}
+
+// pairT: pair with, in addition, cmp.Equal(t) for every combinator tree t of trees.
+func (g *c16) pairT(x, y proto.Message, cfgs []ecfg, combs [][]ecfg, trees []vtree, tags []string, nontrivial bool) {
 	x0, y0 := cloneKeepNil(x), cloneKeepNil(y)
 	x2, y2 := cloneKeepNil(x), cloneKeepNil(y)
 	js := map[string]any{"op": "pair", "x": jsMsg(x), "y": jsMsg(y), "mutations": tags}
@@ -226,6 +231,13 @@ func (g *c16) pair(x, y proto.Message, cfgs []ecfg, combs [][]ecfg, tags []strin
 		v := four(comb, x, y, x2, y2)
 		obs = append(obs, vcoq.App("OComb", vcoq.Bool(isOr), vcoq.List(ec), vcoq.List(cc), v.coq()))
 		jobs = append(jobs, map[string]any{"or": isOr, "of": ej, "xy_yx_xx_yy": v})
+	}
+	for _, t := range trees {
+		v := four(cmp.Equal(t.real()), x, y, x2, y2)
+		obs = append(obs, vcoq.App("OTree", t.coq(), v.coq()))
+		jobs = append(jobs, map[string]any{"cmp": map[string]any{"Equal": []any{t.js()}}, "xy_yx_xx_yy": v})
+		tags = append(tags, fmt.Sprintf("cmp:tree:depth-%d", t.depth()), "cmp:tree:"+t.shape())
+		guard = guard && t.guard()
 	}
 	js["verdicts"] = jobs
 	js["proto_equal"] = peRaw
@@ -310,12 +322,44 @@ func (g *c16) configsFor(ms []mut) (cfgs []ecfg, combs [][]ecfg) {
 	}
 	combs = [][]ecfg{
 		{{vs: []vcfg{fl()}}, {vs: []vcfg{tm()}}, {vs: []vcfg{du()}}}, // And
-		{{}, {vs: []vcfg{fl()}}, {vs: []vcfg{du()}}},                  // Or
+		{{}, {vs: []vcfg{fl()}}, {vs: []vcfg{du()}}},                 // Or
 	}
 	if r.Chance(20) {
 		combs = append(combs, []ecfg{}, []ecfg{}) // And() and Or() of nothing
 	}
 	return
+}
+
+// treesFor: three random combinator trees (depth up to 3) over leaves with tolerances below / at / above the
+// injected differences, and exact leaves.
+func (g *c16) treesFor(ms []mut) []vtree {
+	r := g.r
+	df, dn := 0.5, int64(1000000000)
+	for _, m := range ms {
+		if m.dFloat != 0 {
+			df = m.dFloat
+		}
+		if m.dNanos != 0 {
+			dn = m.dNanos
+		}
+	}
+	margins := []float64{df / 2, df, df * 2, 0}
+	leaves := []func() vcfg{
+		func() vcfg {
+			return vcfg{kind: "float", a: []float64{0, 0, 0.25}[r.Intn(3)], b: margins[r.Intn(len(margins))]}
+		},
+		func() vcfg { return vcfg{kind: "time", d: max64(0, around(r, dn))} },
+		func() vcfg { return vcfg{kind: "dur", d: max64(0, around(r, dn))} },
+		func() vcfg { return vcfg{kind: []string{"float", "time", "dur"}[r.Intn(3)]} },
+	}
+	out := make([]vtree, 3)
+	for i := range out {
+		out[i] = randTree(r, 2+r.Intn(2), leaves)
+		if out[i].leaf != nil { // at least one combination
+			out[i] = vtree{or: r.Bool(), kids: []vtree{out[i], randTree(r, 2, leaves)}}
+		}
+	}
+	return out
 }
 
 func max64(a, b int64) int64 {
@@ -352,7 +396,7 @@ func (g *c16) randomPairs(n int) {
 		}
 		tags = append(tags, fmt.Sprintf("mutations:%d", len(ms)), "type:"+string(a.ProtoReflect().Descriptor().Name()))
 		cfgs, combs := g.configsFor(ms)
-		g.pair(x, y, cfgs, combs, tags, len(ms) > 0)
+		g.pairT(x, y, cfgs, combs, g.treesFor(ms), tags, len(ms) > 0)
 		if i%6 == 0 {
 			// DurationValueWithinP separately (its own known-finding class)
 			p := []float64{0.5, 0.75, 1, 1.5, 2, 3}[r.Intn(6)]
@@ -381,7 +425,9 @@ func (g *c16) nilAndTypes() {
 
 // special floats, extreme durations and timestamps: the corners DESIGN.md section 7 lists.
 func (g *c16) corners() {
-	dbl := func(f float64) proto.Message { return &testproto.TestAllTypes{DefaultDouble: f, RepeatedFloat: []float32{float32(f)}} }
+	dbl := func(f float64) proto.Message {
+		return &testproto.TestAllTypes{DefaultDouble: f, RepeatedFloat: []float32{float32(f)}}
+	}
 	specials := []float64{math.NaN(), math.Inf(1), math.Inf(-1), 0, math.Copysign(0, -1), 1, 1.5, -1}
 	for _, a := range specials {
 		for _, b := range specials {
@@ -722,21 +768,23 @@ func (g *c16) streams(n int) {
 }
 
 func genC16(o *vcoq.Out, r *vcoq.Rand, tier string) error {
-	o.Header = "From Coq Require Import QArith.\nFrom SC Require Import Base.Prelude Cmp.Cmp Cmp.C16Judge."
+	o.Header = "From Coq Require Import QArith.\nFrom SC Require Import Base.Prelude Cmp.Cmp Cmp.Logic Cmp.C16Judge."
 	o.CaseType = "c16case"
 	o.Judge = "judge"
 	o.Shard = 40
-	o.Rule = "pairs: a random TestAllTypes (60%) or trait message (PullBrightnessResponse, PullEnergyLevelResponse, ElectricMode) cloned twice, one clone mutated in 0-3 places (kinds in the mut:* tags), floats dyadic, each pair judged under the default comparer, two FloatValueApprox, two TimeValueWithin, two DurationValueWithin with tolerances below/at/above the injected difference, Equal of all three, Equal(ValueOr), And and Or of Equal comparers, on (x,y), (y,x), (x,x), (y,y); plus exhaustive grids: nil / typed nil / 13 message types pairwise, 8x8 special floats, 9x9 floats on which float64 arithmetic rounds / overflows / is subnormal (18x18 in thorough), 11x11 negative and mixed-sign dyadic floats x 7 fraction/margin configurations (singular, list, float32 and map values), 18x18 extreme durations and 15x15 extreme timestamps incl. tolerance math.MaxInt64, pairs exactly MaxInt64 ns apart +-1, tolerances on map values and list elements only, maps of equal size with different keys, change_time inside / outside a Change and a Change at the top, negative tolerances, 22x22 unknown-field sequences, DurationValueWithinP on a 10x10x3 grid; streams: resource.Value with WithNoDuplicates or a tolerance equivalence, optional seed, 1-8 drifting writes, backpressured Pull (a fifth also through WithReadPaths over top-level fields incl. the empty mask, with writes that change only hidden fields); one-item and whole resource.Collections (up to 3 ids, add / update / delete / re-add, WithInclude(default_double >= threshold), WithUpdatesOnly, read masks, Change messages) with every delivered change. The guard computed by the generator is checked against the judge's (KG). Non-trivial: at least one mutation applied / grid pair / stream or collection with >= 2 writes. Distinct by the full case term."
+	o.Rule = "pairs: a random TestAllTypes (60%) or trait message (PullBrightnessResponse, PullEnergyLevelResponse, ElectricMode) cloned twice, one clone mutated in 0-3 places (kinds in the mut:* tags), floats dyadic, each pair judged under the default comparer, two FloatValueApprox, two TimeValueWithin, two DurationValueWithin with tolerances below/at/above the injected difference, Equal of all three, Equal(ValueOr), And and Or of Equal comparers, three random combinator TREES (ValueAnd / ValueOr nested to depth 2-3 over leaves of different kinds, empty and non-applicable combinations included), on (x,y), (y,x), (x,x), (y,y); plus exhaustive grids: 23 fixed tree shapes x 27 messages differing in a double / timestamp / duration by less and more than the tolerances, nil / typed nil / 13 message types pairwise, 8x8 special floats, 9x9 floats on which float64 arithmetic rounds / overflows / is subnormal (18x18 in thorough), 11x11 negative and mixed-sign dyadic floats x 7 fraction/margin configurations (singular, list, float32 and map values), 18x18 extreme durations and 15x15 extreme timestamps incl. tolerance math.MaxInt64, pairs exactly MaxInt64 ns apart +-1, tolerances on map values and list elements only, maps of equal size with different keys, change_time inside / outside a Change and a Change at the top, negative tolerances, 22x22 unknown-field sequences, DurationValueWithinP on a 10x10x3 grid; streams: resource.Value with WithNoDuplicates or a tolerance equivalence, optional seed, 1-8 drifting writes, backpressured Pull (a fifth also through WithReadPaths over top-level fields incl. the empty mask, with writes that change only hidden fields); one-item and whole resource.Collections (up to 3 ids, add / update / delete / re-add, WithInclude(default_double >= threshold), WithUpdatesOnly, read masks, Change messages) with every delivered change; whole Collections pulled WITHOUT backpressure by a reader that is behind during each phase (a plug write parks the subscription, a script with delete + re-add of seeded and unseeded ids with the same / an equivalent / a different value, update runs, add + delete piles up in the merge stage, a barrier write, drain; 1-4 phases, seeded or updates-only, optional include), every delivered change compared with the composition of the merge-stage model and the held-map loop and judged against what the subscriber holds. The guard computed by the generator is checked against the judge's (KG). Non-trivial: at least one mutation applied / grid pair / stream or collection with >= 2 writes. Distinct by the full case term."
 	g := &c16{o: o, r: r, g: &pairGen{r: r}, tier: tier}
 	scale := 1
 	if tier == "thorough" {
 		scale = 12
 	}
 	g.nilAndTypes()
+	g.treeGrid()
 	g.corners()
 	g.randomPairs(300 * scale)
 	g.streams(200 * scale)
 	g.collections(100 * scale)
+	g.lossyCollections(80 * scale)
 	g.moreCorners()
 	g.masked(60 * scale)
 	return nil
